@@ -53,7 +53,7 @@ func runC02(c *core.Ctx) {
 	}
 	d := descOf(p, argv)
 	c.Journal(d)
-	obs := drive.Run(drive.Single(p), argv)
+	obs := runOnceOrTwice(c, p, argv, cfg)
 	c.LibDone()
 	c.Eval()
 	if !obs.Accepted() {
